@@ -27,6 +27,18 @@ CLAIMS = {
         "Tie: exact-rational model vs float rule/call within C*eps*cond, Float model of _estimate_error bitwise. Partial: "
         "pinv rounding and ill-conditioning (rho near 1) are outside the model.",
    technique="Lean 4 proof (Lagrange coefficient lemma, any field / R / C) + exact-rational and bit-exact correspondence"),
+ 'C06': dict(
+   text="The integer logic of LogRule (parity, tables step/offset/c_0, num_terms, rule_index, richardson_step, method_order, "
+        "flip, names) is regenerated from finite_difference.py into Lean on every run; theorem rule_tables_consistent "
+        "(all n>=1, order>=1, unbounded, methods central/forward/backward/complex) proves spacing = richardson_step, the "
+        "selected row has exponent n, the first uncovered exponent is n+method_order, admissible parity, >=1 term; "
+        "fdRow_moments/fdRow_apply/fdRow_exact prove (any char-0 field, distinct nodes, proved distinct for real rho>1) that "
+        "the rule extracts exactly the selected power of any expansion sum d_j h^(k_j) and leaves only powers "
+        "n+method_order+q*richardson_step. Tie: translator + exhaustive grid of the translated functions vs the "
+        "implementation + float weights vs exact closed form. Partial: pinv rounding / ill-conditioned systems are outside "
+        "the model; the sign convention (flip vs difference function) is checked by the exact-arithmetic search, not yet "
+        "by a theorem.",
+   technique="Lean 4 proof on translator-generated definitions (omega/simp) + Lagrange-coefficient lemma; exact-rational correspondence"),
 }
 
 checks = []
